@@ -102,6 +102,9 @@ func init() {
 (assert (forall ((A (Array Int T)) (d Int) (n Int)) (! (=> (> n 0) (= (dsumT A d n) (+ (dsumT A d (- n 1)) (dim (select A (- n 1)) d)))) :pattern ((dsumT A d n)))))
 (assert (forall ((A (Array Int T)) (d Int) (i Int) (n Int)) (! (=> (and (<= 0 i) (<= i n) (forall ((k Int)) (=> (and (<= i k) (< k n)) (>= (dim (select A k) d) 0)))) (<= (dsumT A d i) (dsumT A d n))) :pattern ((dsumT A d i) (dsumT A d n)))))
 (assert (forall ((A (Array Int T)) (B (Array Int T)) (d Int) (n Int)) (! (=> (forall ((k Int)) (=> (and (<= 0 k) (< k n)) (= (select A k) (select B k)))) (= (dsumT A d n) (dsumT B d n))) :pattern ((dsumT A d n) (dsumT B d n)))))`, "dim")
+	// ghost: every element of t is an independent fresh draw from U[l,u) / N(mu, sigma) (C18; the law itself is assumed)
+	registerDomain("drawnU", []string{"T", "Real", "Real"}, "Bool", "")
+	registerDomain("drawnN", []string{"T", "Real", "Real"}, "Bool", "")
 	// ghost: source / target tensor of a back-edge closure
 	registerDomain("srcOf", []string{"Fn"}, "T", "")
 	registerDomain("tgtOf", []string{"Fn"}, "T", "")
